@@ -22,7 +22,7 @@ from pbt import c02_ref_itp
 
 PROPERTY = 'C11'
 LEVEL = 'exploration'
-RULE = ('a contiguous fragment (4-24 residues quick / 4-40 thorough, optionally crossing a chain boundary, or split into two chains with generated identifiers by leaving one residue out) of one of 11 test structures '
+RULE = ('a contiguous fragment (4-24 residues quick / 4-40 thorough, optionally crossing a chain boundary, or split into two chains with generated identifiers by leaving one residue out) of one of 12 test structures (one case in five around a histidine that carries both ring hydrogens) '
         '(with and without hydrogens, with disulfides, two chains) x a presentation change (within-residue atom permutation, '
         'hydrogen renaming by scheme or unique random names, synthetic alternate-location records, one of 24 exact rotations + grid translation up to 20 A, one case in three up to 400 A, one in four such that a heavy atom lands on the origin exactly, PYTHONHASHSEED in '
         '{0,1,4242}) x pipeline options (-ff martini3001/martini22/elnedyn22, -elastic with bounds, -p backbone, -ss, -dssp, -cys, '
@@ -51,6 +51,7 @@ SOURCES = [
     'integration_tests/tier-1/hst5/aa.pdb',
     '1bta.pdb',
     'integration_tests/tier-1/6LFO_gap/6LFO_gap.pdb',
+    'integration_tests/tier-1/prot_modf_charmm/input.pdb',
 ]
 STANDARD = {'ALA', 'ARG', 'ASN', 'ASP', 'CYS', 'GLN', 'GLU', 'GLY', 'HIS', 'ILE', 'LEU', 'LYS', 'MET', 'PHE', 'PRO',
             'SER', 'THR', 'TRP', 'TYR', 'VAL', 'HSD', 'HSE', 'HSP'}
@@ -69,6 +70,7 @@ for _perm in ((0, 1, 2), (0, 2, 1), (1, 0, 2), (1, 2, 0), (2, 0, 1), (2, 1, 0)):
 assert len(ROTATIONS) == 24
 
 _CORPUS = None
+_FOCUS = []
 _SERVERS = {}
 
 
@@ -99,6 +101,12 @@ def preload():
                     last = key
                 residues[-1][1].append(line.rstrip('\n').ljust(80))
         corpus.append({'name': rel, 'residues': residues})
+    # residues whose treatment could hinge on what their hydrogens are called: a histidine that carries both ring hydrogens
+    for sidx, src in enumerate(corpus):
+        for ridx, (key, lines) in enumerate(src['residues']):
+            names = {line[12:16].strip() for line in lines}
+            if key[2] in ('HIS', 'HSP', 'HSD', 'HSE') and {'HD1', 'HE2'} <= names:
+                _FOCUS.append((sidx, ridx))
     _CORPUS = corpus
 
 
@@ -110,6 +118,13 @@ def fragment(case):
     nres = len(src['residues'])
     length = min(case['length'], nres)
     start = case['start'] % (nres - length + 1)
+    if case.get('focus') is not None and _FOCUS:
+        # a fragment around one of the residues of special interest
+        sidx, ridx = _FOCUS[case['focus'] % len(_FOCUS)]
+        src = _CORPUS[sidx]
+        nres = len(src['residues'])
+        length = min(case['length'], nres)
+        start = max(0, min(nres - length, ridx - case['start'] % length))
     residues = src['residues'][start:start + length]
     split = case.get('split')
     if split is not None and length >= 5 and len(set(key[0] for key, _ in residues)) == 1:
@@ -596,6 +611,7 @@ def strategy(tier):
     return st.fixed_dictionaries({
         'source': st.integers(0, len(SOURCES) - 1), 'start': st.integers(0, 400), 'length': st.integers(4, maxlen),
         'transform': transform, 'options': options,
+        'focus': st.one_of(st.none(), st.none(), st.none(), st.none(), st.integers(0, 50)),
         'split': st.one_of(st.none(), st.fixed_dictionaries({
             'at': st.integers(0, 40), 'chains': st.sampled_from([['A', 'B'], ['B', 'A'], ['X', 'a'], ['1', '2'], ['H', 'L']])})),
         'altloc': st.one_of(st.just([]), st.just([]), st.lists(st.tuples(st.integers(0, 40), st.integers(0, 30)).map(list), min_size=1, max_size=3)),
